@@ -222,21 +222,35 @@ pub fn parse_one<'a, I: Kind<'a>, E: ErrTy<'a, I>, Pz: Parser<'a, I, Val, crate:
     let res = catch_unwind(AssertUnwindSafe(|| {
         if mode == "E" {
             let r = p.parse_with_state(input, &mut st);
-            let live_with = val::live_count() as i64 - live0;
-            let tracks = r.output().map(count_tracks).unwrap_or(0);
             let has_output = r.has_output();
             let has_errors = r.has_errors();
             let out = r.output().map(|v| v.to_json());
             let errs: Vec<ErrObs> = r.errors().map(|e| e.obs()).collect();
-            let result_ok = r.into_result().is_ok();
+            // what is alive while the caller holds the OUTPUT: errors may own clones of tokens (tracked token kinds),
+            // which are handed to the caller like the output and are not leaks -- they are dropped first
+            let (result_ok, live_with, tracks) = match r.into_result() {
+                Ok(output) => {
+                    let lw = val::live_count() as i64 - live0;
+                    let tr = count_tracks(&output);
+                    drop(output);
+                    (true, lw, tr)
+                }
+                Err(errors) => {
+                    // into_result has dropped the output (if any): whatever is alive besides the errors was lost
+                    drop(errors);
+                    (false, val::live_count() as i64 - live0, 0)
+                }
+            };
             (has_output, has_errors, result_ok, out, errs, live_with, tracks)
         } else {
             let r = p.check_with_state(input, &mut st);
-            let live_with = val::live_count() as i64 - live0;
             let has_output = r.has_output();
             let has_errors = r.has_errors();
             let errs: Vec<ErrObs> = r.errors().map(|e| e.obs()).collect();
-            let result_ok = r.into_result().is_ok();
+            let res = r.into_result();
+            let result_ok = res.is_ok();
+            drop(res);      // the errors may own clones of tokens: handed to the caller, not lost
+            let live_with = val::live_count() as i64 - live0;
             (has_output, has_errors, result_ok, if has_output { Some(json!(["U"])) } else { None }, errs, live_with, 0)
         }
     }));
@@ -326,6 +340,36 @@ pub fn run_case_as(c: &Case, kind: &str, ety: &str, mode: &str) -> Result<Obs, S
             match ety {
                 "rich" => run_kind::<&[char], Rich<char>>(&c.g, &v[..], &c.inp, mode),
                 e => Err(format!("error type {e} not instantiated for kind slice")),
+            }
+        }
+        // C19: tokens with observable ownership.  The caller's buffer (tslice) is dropped before the double-drop counter
+        // is read, so a token of the caller that the library dropped shows up as a double drop; a Stream owns its
+        // tokens and takes them with it (live_after is corrected by their number)
+        "tslice" | "tstream" => {
+            if ety != "rich" {
+                return Err(format!("error type {ety} not instantiated for kind {kind}"));
+            }
+            use crate::errs::{Tok, KT};
+            LOCS.with(|l| l.borrow_mut().clear());
+            BASE.with(|b| *b.borrow_mut() = (0, 1));
+            let v: Vec<KT> = c.inp.iter().map(|t| KT::from_ch(*t)).collect();
+            let n = v.len() as i64;
+            if kind == "tslice" {
+                let mut o = run_kind::<&[KT], Rich<KT>>(&c.g, &v[..], &c.inp, mode)?;
+                let dd = val::double_drops();
+                let live = val::live_count() as i64;
+                drop(v);
+                o.double_drops += val::double_drops() - dd;
+                // the caller's n tokens were still alive and are gone now
+                if live - val::live_count() as i64 != n {
+                    o.double_drops += 1;
+                }
+                Ok(o)
+            } else {
+                let mut o = run_kind::<_, Rich<KT>>(&c.g, Stream::from_iter(v.into_iter()), &c.inp, mode)?;
+                o.live_after += n;
+                o.live_with_result += n;
+                Ok(o)
             }
         }
         "array" => {
